@@ -5,6 +5,7 @@
 import ChessVerif.Lemmas.Ranges
 import ChessVerif.Lemmas.Refine
 import ChessVerif.Lemmas.Attack
+import ChessVerif.Lemmas.Material
 import ChessVerif.Model.Movegen
 namespace Chess
 
@@ -57,6 +58,10 @@ theorem boardHypb_sound (b : List Nat) (h : boardHypb b = true) : BoardOK b := b
       rw [List.getD_eq_getElem?_getD, List.getElem?_eq_none (by omega)]; rfl
     rw [this]; omega
 
+/-- no piece kind occurs 16 or more times (the packed count vector has a nibble per kind) -/
+def countsHypb (b : List Nat) : Bool :=
+  [1, 2, 3, 4, 5, 7, 8, 9, 10, 11].all (fun k => decide (countOf b k < 16))
+
 /-- exactly one king of colour c (on the square the engine's king lookup returns), no enemy king beside it -/
 def kingHypb (b : List Nat) (c : Nat) : Bool :=
   decide (kingSq b c < 64) && decide (b.getD (kingSq b c) 0 = mkPiece c KING) &&
@@ -73,20 +78,34 @@ theorem kingHypb_sound (b : List Nat) (c : Nat) (h : kingHypb b c = true) :
     board has the shape the bitboard lemmas assume and each side has exactly one king with no enemy king beside it -/
 def hypothesesHold (p : Position) : Bool :=
   decide (Ranges p) && decide (PlyOK p) && (genMoves p).all (fun m => decide (UndoOK p m)) &&
-  boardHypb p.board && kingHypb p.board 0 && kingHypb p.board 1
+  boardHypb p.board && kingHypb p.board 0 && kingHypb p.board 1 && countsHypb p.board
 
 theorem hypothesesHold_sound (p : Position) (h : hypothesesHold p = true) :
     Ranges p ∧ PlyOK p ∧ (∀ m ∈ genMoves p, UndoOK p m) ∧ BoardOK p.board ∧
     (∀ c, c ≤ 1 → KingAt p.board c (kingSq p.board c) ∧ kingNear p.board (kingSq p.board c) (1 - c) = false) := by
   unfold hypothesesHold at h
   simp only [Bool.and_eq_true, decide_eq_true_eq, List.all_eq_true] at h
-  obtain ⟨⟨⟨⟨⟨h1, h2⟩, h3⟩, h4⟩, h5⟩, h6⟩ := h
+  obtain ⟨⟨⟨⟨⟨⟨h1, h2⟩, h3⟩, h4⟩, h5⟩, h6⟩, _⟩ := h
   refine ⟨h1, h2, h3, boardHypb_sound _ h4, ?_⟩
   intro c hc
   have : c = 0 ∨ c = 1 := by omega
   rcases this with rfl | rfl
   · exact kingHypb_sound _ 0 h5
   · exact kingHypb_sound _ 1 h6
+
+/-- wherever the driver printed `sync=ok`, the engine-side material test is the rules' -/
+theorem material_eq_of_hypotheses (p : Position) (h : hypothesesHold p = true) :
+    enoughMaterial p = !Spec.insufficientMaterial p.board := by
+  unfold hypothesesHold at h
+  simp only [Bool.and_eq_true] at h
+  obtain ⟨⟨⟨⟨_, hb⟩, _⟩, _⟩, hc⟩ := h
+  unfold boardHypb at hb
+  simp only [Bool.and_eq_true, List.all_eq_true, decide_eq_true_eq] at hb
+  unfold countsHypb at hc
+  simp only [List.all_cons, List.all_nil, Bool.and_true, Bool.and_eq_true, decide_eq_true_eq] at hc
+  obtain ⟨c1, c2, c3, c4, c5, c7, c8, c9, c10, c11⟩ := hc
+  unfold enoughMaterial
+  rw [material_eq p.board hb.2 ⟨c1, c2, c3, c4, c5, c7, c8, c9, c10, c11⟩]
 
 /-- so wherever the driver printed `sync=ok`, the engine-side check test is the rules' check test -/
 theorem check_eq_of_hypotheses (p : Position) (h : hypothesesHold p = true) (side : Nat) (hs : side ≤ 1) :
